@@ -46,6 +46,8 @@ type tv struct {
 	ty  *SType
 	// addressable Go lvalue: ref + tag for loading
 	ref string
+	// for pointer values handed in by a caller: heap tag of the pointed-to cell (field of a struct)
+	dtag string
 }
 
 type Env struct {
@@ -116,6 +118,12 @@ func (e *Env) resolveType(s string) (*SType, error) {
 				}
 			}
 		}
+	case strings.HasPrefix(s, "gomap["):
+		gt, err := e.eng.resolveGoType(s[2:], e.pkg)
+		if err != nil {
+			return nil, err
+		}
+		return goT(gt), nil
 	case strings.HasPrefix(s, "set["):
 		k, err := e.resolveType(s[4 : len(s)-1])
 		if err != nil {
@@ -209,6 +217,16 @@ func (e *Env) eval(x Expr) (tv, error) {
 		}
 		if n.Op == "!" {
 			return tv{t: "(not " + v.t + ")", ty: stBool}, nil
+		}
+		if n.Op == "*" {
+			if v.ty.Kind != "go" {
+				return tv{}, fmt.Errorf("dereference of non-pointer %s", n.X)
+			}
+			pt, ok := v.ty.Go.Underlying().(*types.Pointer)
+			if !ok {
+				return tv{}, fmt.Errorf("dereference of non-pointer %s", n.X)
+			}
+			return tv{t: e.load(v.t, pt.Elem(), v.dtag), ty: goT(pt.Elem()), ref: v.t}, nil
 		}
 		return tv{t: "(- " + v.t + ")", ty: stInt}, nil
 	case *ECond:
@@ -719,6 +737,16 @@ func (e *Env) call(n *ECall) (tv, error) {
 		id := e.sc.sorts.ifaceID(gt)
 		e.g.box(gt, e.sc.sorts.zero(gt))
 		return tv{t: fmt.Sprintf("(unbox_%d %s)", id, as.t), ty: goT(gt)}, nil
+	case "zeroval":
+		ts, ok := n.Args[0].(*EStr)
+		if !ok {
+			return tv{}, fmt.Errorf("zeroval needs a type string")
+		}
+		gt, err := e.eng.resolveGoType(ts.Val, e.pkg)
+		if err != nil {
+			return tv{}, err
+		}
+		return tv{t: e.sc.sorts.zero(gt), ty: goT(gt)}, nil
 	case "initval":
 		// initval(pkg.Global): the value stored by the package initialiser
 		if s, ok := n.Args[0].(*ESel); ok {
@@ -1044,6 +1072,40 @@ func (g *Gen) loopEnv(li *loopInfo, st *State, phiVals map[*ssa.Phi]string) *Env
 				}
 			}
 		}
+		if len(cands) > 1 {
+			// prefer computed values over the zero-value constant of the declaration, then the value
+			// closest to the loop header in the dominator tree
+			var nc []ssa.Value
+			for _, v := range cands {
+				if _, isC := v.(*ssa.Const); !isC {
+					nc = append(nc, v)
+				}
+			}
+			if len(nc) > 0 {
+				cands = nc
+			}
+			if len(cands) > 1 {
+				best := cands[0]
+				ok := true
+				for _, v := range cands[1:] {
+					bi, _ := best.(ssa.Instruction)
+					vi, _ := v.(ssa.Instruction)
+					switch {
+					case bi == nil:
+						best = v
+					case vi == nil:
+					case bi.Block() != vi.Block() && bi.Block().Dominates(vi.Block()):
+						best = v
+					case bi.Block() != vi.Block() && vi.Block().Dominates(bi.Block()):
+					default:
+						ok = false
+					}
+				}
+				if ok {
+					cands = []ssa.Value{best}
+				}
+			}
+		}
 		if len(cands) == 1 {
 			e.vars[name] = tv{t: g.term(cands[0]), ty: goT(cands[0].Type())}
 		}
@@ -1082,6 +1144,9 @@ func (g *Gen) loopEnv(li *loopInfo, st *State, phiVals map[*ssa.Phi]string) *Env
 			}
 			if phi.Comment == "rangeindex" {
 				e.vars["iter"] = tv{t: fmt.Sprintf("(+ %s 1)", t), ty: stInt}
+				if l := g.loops[hb]; l != nil {
+					e.vars[fmt.Sprintf("iter%d", l.ordinal)] = tv{t: fmt.Sprintf("(+ %s 1)", t), ty: stInt}
+				}
 				continue
 			}
 			if phi.Comment != "" {
@@ -1089,7 +1154,11 @@ func (g *Gen) loopEnv(li *loopInfo, st *State, phiVals map[*ssa.Phi]string) *Env
 			}
 		}
 	}
+	var chain []*loopInfo
 	for p := li.parent; p != nil; p = p.parent {
+		chain = append([]*loopInfo{p}, chain...)
+	}
+	for _, p := range chain {
 		bindPhis(p.header, nil)
 	}
 	bindPhis(h, phiVals)
